@@ -1,3 +1,4 @@
+import CaresModel.Generated.EvTimeout
 /-
 Model of the built-in event thread and its interaction with client threads
 (src/lib/event/ares_event_thread.c: ares_event_thread(), ares_event_update(), ares_event_thread_wake();
@@ -68,9 +69,20 @@ def minOpt : List Nat → Option Nat
     | none => some x
     | some y => some (min x y)
 
-/-- ares_timeout + the `+ 1` of the event loop: absolute instant until which the thread may sleep -/
+/-- milliseconds handed to `ev_sys->wait` when `rem` ms remain until the earliest deadline: ares_timeout() returns
+    the remaining time as sec/usec and the event loop converts it with the expression that
+    tools/gen_evtimeout.py re-extracts from ares_event_thread() on every run -/
+def waitMs (rem : Nat) : Nat := Cares.Generated.Ev.timeoutMs (rem / 1000) (rem % 1000 * 1000)
+
+/-- absolute instant until which the thread may sleep; `none` = no timeout.  Every backend (epoll, poll, select,
+    kqueue, win32) treats `timeout_ms == 0` as "wait forever", so a computed 0 is `none`, exactly like the
+    initial value used when ares_timeout() returns NULL. -/
 def sleepUntil (s : St) : Option Nat :=
-  (minOpt s.deadlines).map fun d => (if d ≥ s.now then d else s.now) + 1
+  match minOpt s.deadlines with
+  | none => if Cares.Generated.Ev.timeoutMsNone = 0 then none else some (s.now + Cares.Generated.Ev.timeoutMsNone)
+  | some d =>
+    let ms := waitMs (d - s.now)
+    if ms = 0 then none else some (s.now + ms)
 
 def timedOut (u : Option Nat) (now : Nat) : Bool :=
   match u with
